@@ -89,28 +89,46 @@ def run(tier, seed):
             # (B) fixed_t(float(d)) == 65536 d for each of the 721 integers |d| <= 360 (constant propagation through the float
             # conversion, exact rounding of the singleton intervals); f(fixed_t carrying d) is the reference of the loop above
             from fxai import pipeline as P
+            rc = ctx.run("w_ctor_if32", [("i", -360, 360)])
+            conv_ok = True
+            for d in range(-360, 361):
+                rs = rc.an.run(P.init_state(rc.an.fn, [("i", d, d)]))
+                vals = set(lib.ret_rng(q) for q in rs.paths)
+                if not (vals == {(65536 * d, 65536 * d)} and not rs.alarms):
+                    conv_ok = False
+                    break
+            nb = 0
             for f in ("sin_angle", "cos_angle", "tan_angle"):
                 ra = ctx.run("w_%s_f32" % f)
                 rb = ctx.run("w_%s_fxf32" % f)
                 if len(ra.paths) < 5:
                     V.broke("w_%s_f32 [%s]: only %d paths" % (f, cfg, len(ra.paths)))
-                lib.check_equiv(V, ra, rb, "%s(float v) == %s(fixed_t(v))" % (f, f), site=f)
-            rc = ctx.run("w_ctor_if32", [("i", -360, 360)])
-            nb = 0
-            for d in range(-360, 361):
-                rs = rc.an.run(P.init_state(rc.an.fn, [("i", d, d)]))
-                vals = set(lib.ret_rng(q) for q in rs.paths)
-                ok = vals == {(65536 * d, 65536 * d)} and not rs.alarms
-                V.oblige(ok)
-                if not ok:
-                    nb += 1
-                    out = rc.conc((d,))
-                    if out != ("ret", 65536 * d):
-                        V.violation("float carrier holds the same degree value", "floating_point_to_fixed",
-                                    "fixed_t(float(%d)) [%s] %s, not raw %d: sin_angle/cos_angle/tan_angle of the float differ from the integer carrier" % (
-                                        d, cfg, lib.out_str(out), 65536 * d), lib.rp(rc, (d,), "float carrier"))
-                    elif nb <= 3:
-                        V.inconc("w_ctor_if32 [%s]: fixed_t(float(%d)) not decided by constant propagation (%s)" % (cfg, d, sorted(vals)[:2]))
+                # fast route: lemma A on a scratch verdict (it quantifies over every float, more than the property asks for)
+                VA = common.Verdict("C20", tier, seed)
+                lib.check_equiv(VA, ra, rb, "%s(float v) == %s(fixed_t(v))" % (f, f), site=f)
+                if conv_ok and VA.obligations and VA.discharged == VA.obligations and not VA.violations and not VA.inconclusive:
+                    V.oblige(True, VA.obligations + 721)
+                    info[cfg].setdefault("float_carrier_route", {})[f] = "program equivalence + 721 conversions"
+                    continue
+                # exact route: the 721 degree values one by one, float carrier against the fixed_t carrier
+                info[cfg].setdefault("float_carrier_route", {})[f] = "721 degree values by constant propagation"
+                rfx = ctx.run("w_%s_fxi" % f, [("i", -360, 360)])
+                for d in range(-360, 361):
+                    r1 = ra.an.run(P.init_state(ra.an.fn, [("f", float(d), float(d), False)]))
+                    r2 = rfx.an.run(P.init_state(rfx.an.fn, [("i", d, d)]))
+                    v1 = set(lib.ret_rng(q) for q in r1.paths)
+                    v2 = set(lib.ret_rng(q) for q in r2.paths)
+                    ok = len(v1) == 1 and v1 == v2 and next(iter(v1))[0] == next(iter(v1))[1] and not r1.alarms and not r2.alarms
+                    V.oblige(ok)
+                    if not ok:
+                        nb += 1
+                        o1, o2 = ra.conc((float(d),)), rfx.conc((d,))
+                        if o1 != o2:
+                            V.violation("integer, float and fixed_t arguments carrying the same d give the same result", f,
+                                        "%s(float %d) [%s] %s but %s(fixed_t %d) %s" % (f, d, cfg, lib.out_str(o1), f, d, lib.out_str(o2)),
+                                        lib.rp(ra, (float(d),), "float carrier agrees with fixed_t carrier"))
+                        elif nb <= 3:
+                            V.inconc("w_%s_f32 [%s]: degree %d not decided by constant propagation (%s vs %s)" % (f, cfg, d, sorted(v1)[:2], sorted(v2)[:2]))
             info[cfg]["float_carrier_degrees"] = 721 - nb
         except Broken as e:
             V.broke("%s: %s" % (cfg, e))
@@ -121,10 +139,11 @@ def run(tier, seed):
             "same d as a fixed_t (summary equivalence), so integer and fixed_t arguments give the same result. Accuracy: the 721 integer "
             "degrees (int32 carrier; the other integral carriers and fixed_t are equal to it) form a finite set and are decided one by one by "
             "constant propagation against the interval oracle: sin_angle/cos_angle within the C09 bound + 3 ulp, tan_angle within "
-            "5 ulp (1+tan^2) (odd multiples of 90 degrees excluded: pole). Float carrier: f(float v) and f(fixed_t(v)) are the same program for every "
-            "float v (summary equivalence: the mixed operator converts first), and fixed_t(float(d)) == 65536 d for each of the 721 integers "
-            "|d| <= 360 (constant propagation with exact rounding of the float conversion and of v*65536 +- 0.5), so the float carrier agrees "
-            "with the fixed_t and integral carriers (sin_angle(double) does not compile: not an input the functions are defined on). "
+            "5 ulp (1+tan^2) (odd multiples of 90 degrees excluded: pole). Float carrier: either f(float v) and f(fixed_t(v)) are the same program for every "
+            "float v (summary equivalence: the mixed operator converts first) and fixed_t(float(d)) == 65536 d for each of the 721 integers "
+            "|d| <= 360 (constant propagation with exact rounding of the float conversion and of v*65536 +- 0.5), or - when that stronger "
+            "statement does not hold - the 721 degree values are decided one by one, float carrier against fixed_t carrier, by constant "
+            "propagation; so the float carrier agrees with the fixed_t and integral carriers (sin_angle(double) does not compile: not an input the functions are defined on). "
             "Every clause of C20 is decided.")
     return V.finish("proof", expl, "./fx check C20 --tier %s" % tier, extra={"configs": configs, "constants": info})
 
